@@ -95,13 +95,15 @@ TReply == /\ IsEvent("reply")
 
 TClean == /\ IsEvent("clean")
           /\ IF ~lost /\ CanClean THEN DoClean /\ lost' = FALSE
-             ELSE Diverge(IF ph = "E" THEN "ended-twice" ELSE "request-ended-without-reply-or-termination")
+             ELSE Diverge(IF ph = "E" THEN "ended-twice"
+                          ELSE IF ph = "W" THEN "ended-while-waiting-for-the-upstream"   \* a life-cycle matter (C03), no filter involved
+                          ELSE "request-ended-without-reply-or-termination")
 
 SetOf(s) == { s[j] : j \in DOMAIN s }
 
 TCDone == /\ IsEvent("cdone")
           /\ IF lost THEN TRUE ELSE
-                     ( /\ Expect(Ev.ended /\ ph = "E", "request-never-ended")
+                     ( /\ Expect(Ev.ended /\ ph = "E", IF ph = "W" THEN "never-ended-while-waiting-for-the-upstream" ELSE "request-never-ended")
                        /\ Expect(Ev.extra = 0, "client-got-bytes-after-response")
                        /\ Expect((Ev.kind = "response") <=> (replies = 1), "client-view-differs")
                        /\ Expect(Ev.kind # "response" \/ replies # 1 \/ Ev.status = reply,
